@@ -2,6 +2,7 @@ package eval
 
 import (
 	"fmt"
+	"maps"
 	"ti/base"
 	"ti/builtin"
 	"ti/context"
@@ -151,6 +152,16 @@ func (i *IfUnless) beforeEval(
 	p parser.Parser,
 	ctx context.Context,
 ) error {
+
+	// the condition is evaluated here on a copy of the parser and again by the caller:
+	// call points recorded by this lookahead would be counted twice
+	callPoints := maps.Clone(base.MethodCallPoint)
+	calleePoints := maps.Clone(base.MethodCalleePoint)
+
+	defer func() {
+		base.MethodCallPoint = callPoints
+		base.MethodCalleePoint = calleePoints
+	}()
 
 	nextT, err := p.Read()
 	if err != nil {
